@@ -50,3 +50,26 @@ namespace Jnp
 /-- `jnp.clip` on (traced) integers. -/
 def clipInt (k lo hi : Int) : Int := if k < lo then lo else if hi < k then hi else k
 end Jnp
+/-! ### Vector primitives used by the parameterisations (C11) -/
+namespace Jnp
+section VecParams
+variable {α : Type} [Add α] [Sub α] [Div α] [OfNat α 0] [Transc α]
+
+/-- `jax.nn.softmax xs` on a 1-d array: `exp xᵢ / Σⱼ exp xⱼ` (JAX subtracts `max xs` from every
+entry first, which does not change the real value). -/
+def softmax (xs : List α) : List α :=
+  let es := xs.map (fun x => Transc.exp x)
+  es.map (fun e => e / sum es)
+
+/-- `jax.nn.log_softmax xs` on a 1-d array: `xᵢ − log Σⱼ exp xⱼ`. -/
+def logSoftmax (xs : List α) : List α :=
+  xs.map (fun x => x - Transc.log (sum (xs.map (fun y => Transc.exp y))))
+
+/-- `xs.at[i].set(v)` for a static index `0 ≤ i` (an out-of-range update is dropped, as in JAX). -/
+def setItem (xs : List α) (i : Nat) (v : α) : List α := xs.set i v
+
+/-- `jnp.pad(xs, pad_width=1, constant_values=(a, b))` on a 1-d array. -/
+def pad1 (xs : List α) (c : α × α) : List α := c.1 :: (xs ++ [c.2])
+
+end VecParams
+end Jnp
